@@ -17,6 +17,7 @@ VNone   == Leaf("none")
 VList   == Leaf("L1")                                            \* [1, 2]
 VTuple  == Leaf("T1")                                            \* (1, 2)
 VListNS == Leaf("LN")                                            \* [Namespace(a=1)]
+VListMx == Leaf("LM")                                            \* [Namespace(a=1), 1]   -- a list that holds a namespace next to a scalar
 VEmptyT == Leaf("T0")                                            \* ()   -- empty and falsy leaves are values like any other
 VEmptyL == Leaf("L0")                                            \* []
 VFalse  == Leaf("false")                                         \* False
@@ -27,7 +28,7 @@ VEmptyD == T(<< << << >>, "dict">> >>)                            \* {}
 VNS     == T(<< << << >>, "ns">>, << <<"a">>, "i2">> >>)           \* Namespace(a=2)
 VNSC    == T(<< << << >>, "ns">>, << <<"items">>, "i1">>, << <<"a">>, "ns">>, << <<"a", "items">>, "none">> >>)  \* Namespace(items=1, a=Namespace(items=None))
 VEmptyN == EmptyNS
-SetVals == {VInt, VNone, VList, VTuple, VListNS, VEmptyT, VEmptyL, VFalse, VDict, VDictC, VDictNS, VEmptyD, VNS, VNSC, VEmptyN}
+SetVals == {VInt, VNone, VList, VTuple, VListNS, VListMx, VEmptyT, VEmptyL, VFalse, VDict, VDictC, VDictNS, VEmptyD, VNS, VNSC, VEmptyN}
 Dflt    == Leaf("dflt")
 
 \* update(Namespace) arguments: what value.items() yields, in order
@@ -70,6 +71,9 @@ AlgReadYourWrite == \A o \in Ops : (o.op = "set" /\ ~ThroughDict(o, t)) => AlgGe
 ObserversSane == /\ DOMAIN AsDict(t) = DOMAIN t
                  /\ \A q \in Keys(t, TRUE) : RefHas(t, q)
                  /\ Keys(t, FALSE) \subseteq Keys(t, TRUE)
+
+\* conversions: as_dict leaves no namespace behind; a plain dictionary survives the trip through dict_to_namespace
+ConvLaws == AsDictPlain(t) /\ RoundTripFromDict(AsDict(t))
 
 TreeSeq(x) == LET s == SetToSeq(DOMAIN x) IN [i \in 1..Len(s) |-> <<s[i], x[s[i]]>>]
 OpJson(o) == [op |-> o.op, p |-> o.p, v |-> TreeSeq(o.v), items |-> [i \in 1..Len(o.items) |-> <<o.items[i][1], TreeSeq(o.items[i][2])>>], ou |-> o.ou]
